@@ -510,4 +510,373 @@ theorem from_ok {c : F64} (hc : c.is_finite = true) (hw : c.WF) :
 
 end valid
 
+
+/-! ## 5. normal forms of the specification functions in terms of `floorV` -/
+
+theorem ceilV_nf (z : ℤ) : ceilV z = if z = floorV z then floorV z else floorV z + U := by
+  have h1 := floorV_le z; have h2 := lt_floorV_add z; have hd := floorV_dvd z
+  split_ifs with h
+  · rw [← h]; exact ceilV_of_dvd (h ▸ hd)
+  · exact ceilV_eq_of (dvd_add hd dvd_rfl) (by omega) (by omega)
+
+theorem truncV_nf (z : ℤ) : truncV z = if 0 ≤ z then floorV z else ceilV z := by
+  split_ifs with h
+  · exact truncV_of_nonneg h
+  · exact truncV_of_nonpos (by omega)
+
+theorem roundV_nf (z : ℤ) : roundV z =
+    if 0 ≤ z then (if 2 * (z - floorV z) < U then floorV z else floorV z + U)
+    else (if 2 * (z - floorV z) ≤ U then floorV z else floorV z + U) := by
+  have h1 := floorV_le z; have h2 := lt_floorV_add z; have hd := floorV_dvd z
+  split_ifs with h h' h'
+  · exact roundV_eq_of_nonneg h hd (by omega) (by omega)
+  · exact roundV_eq_of_nonneg h (dvd_add hd dvd_rfl) (by omega) (by omega)
+  · exact roundV_eq_of_nonpos (by omega) hd (by omega) (by omega)
+  · exact roundV_eq_of_nonpos (by omega) (dvd_add hd dvd_rfl) (by omega) (by omega)
+
+theorem floorV_add_of_dvd {h z : ℤ} (hd : U ∣ h) : floorV (h + z) = h + floorV z := by
+  have h1 := floorV_le z; have h2 := lt_floorV_add z
+  exact floorV_eq_of (dvd_add hd (floorV_dvd z)) (by omega) (by omega)
+
+theorem floorV_eq_self_iff {z : ℤ} : z = floorV z ↔ U ∣ z :=
+  ⟨fun h => h ▸ floorV_dvd z, fun h => (floorV_of_dvd h).symm⟩
+
+theorem fractV_eq_zero_iff {z : ℤ} : fractV z = 0 ↔ U ∣ z := by
+  constructor
+  · intro h
+    unfold fractV at h
+    have : z = truncV z := by omega
+    rw [this]; exact truncV_dvd z
+  · exact fractV_of_dvd
+
+/-- lower bound for multiples of `U` below `z` -/
+theorem le_floorV {z f : ℤ} (hd : U ∣ f) (h : f ≤ z) : f ≤ floorV z := by
+  by_contra hc
+  have h2 := lt_floorV_add z
+  have : U ≤ f - floorV z := Int.le_of_dvd (by omega) (dvd_sub hd (floorV_dvd z))
+  omega
+
+theorem ceilV_le {z c : ℤ} (hd : U ∣ c) (h : z ≤ c) : ceilV z ≤ c := by
+  have := le_floorV (z := -z) (f := -c) ((dvd_neg).2 hd) (by omega)
+  rw [ceilV_eq_neg_floorV]; omega
+
+/-! ## 6. powers of two against `U = 2^1074` -/
+
+theorem pow_cases (e : ℕ) : (2 : ℤ) ^ (e + 1) ∣ U ∨ U ∣ (2 : ℤ) ^ e := by
+  rw [U_eq]
+  rcases Nat.lt_or_ge e 1074 with h | h
+  · left; exact pow_dvd_pow 2 h
+  · right; exact pow_dvd_pow 2 h
+
+/-- (a) if the low word is a non-zero integer value then the high word is an integer value -/
+theorem hi_int_of_lo_int {e : ℕ} {H L : ℤ} (hd : (2 : ℤ) ^ e ∣ H) (hl : 2 * |L| ≤ 2 ^ e) (hL : U ∣ L)
+    (h0 : L ≠ 0) : U ∣ H := by
+  have hU := U_pos
+  have h1 : U ≤ |L| := Int.le_of_dvd (abs_pos.2 h0) ((dvd_abs _ _).2 hL)
+  rcases pow_cases e with h | h
+  · have hp : (0 : ℤ) < 2 ^ e := by positivity
+    have := Int.le_of_dvd hU h
+    rw [pow_succ] at this; omega
+  · exact dvd_trans h hd
+
+/-- if the high word is not an integer value then its grid is finer than half of `U` -/
+theorem two_pow_dvd_of_not_dvd {e : ℕ} {H : ℤ} (hd : (2 : ℤ) ^ e ∣ H) (hH : ¬ U ∣ H) :
+    2 * (2 : ℤ) ^ e ∣ U := by
+  rcases pow_cases e with h | h
+  · rwa [pow_succ, mul_comm] at h
+  · exact absurd (dvd_trans h hd) hH
+
+/-- the linear facts about a non-integer high word `H` on the grid `P = 2^e`: its distance to the neighbouring
+integer values is at least `P`, and its distance to the half-way point is zero or at least `P` -/
+theorem frac_gaps {e : ℕ} {H : ℤ} (hd : (2 : ℤ) ^ e ∣ H) (hH : ¬ U ∣ H) :
+    0 < (2 : ℤ) ^ e ∧ (2 : ℤ) ^ e ≤ H - floorV H ∧ (2 : ℤ) ^ e ≤ floorV H + U - H ∧
+      (2 * (H - floorV H) = U ∨ 2 * (2 : ℤ) ^ e ≤ 2 * (H - floorV H) - U ∨
+        2 * (2 : ℤ) ^ e ≤ U - 2 * (H - floorV H)) := by
+  have hp : (0 : ℤ) < 2 ^ e := by positivity
+  have h2 := two_pow_dvd_of_not_dvd hd hH
+  have hPU : (2 : ℤ) ^ e ∣ U := dvd_trans (Dvd.intro_left _ rfl) h2
+  have hf := floorV_dvd H
+  have h1 := floorV_le H; have h3 := lt_floorV_add H
+  have hne : H ≠ floorV H := fun h => hH (floorV_eq_self_iff.1 h)
+  have hPf : (2 : ℤ) ^ e ∣ floorV H := dvd_trans hPU hf
+  refine ⟨hp, Int.le_of_dvd (by omega) (dvd_sub hd hPf),
+    Int.le_of_dvd (by omega) (dvd_sub (dvd_add hPf hPU) hd), ?_⟩
+  by_cases h : 2 * (H - floorV H) = U
+  · exact Or.inl h
+  · right
+    have hd2 : 2 * (2 : ℤ) ^ e ∣ 2 * (H - floorV H) - U :=
+      dvd_sub (mul_dvd_mul_left 2 (dvd_sub hd hPf)) h2
+    rcases lt_or_gt_of_ne h with h' | h'
+    · right
+      have := Int.le_of_dvd (by omega) ((dvd_neg).2 hd2)
+      omega
+    · left
+      exact Int.le_of_dvd (by omega) hd2
+
+section tests
+open F64
+
+/-! ## 7. the tests performed by the code -/
+
+theorem f64lit_one : f64lit 0x3ff0000000000000 = fin false F64.unit := by decide +kernel
+theorem f64lit_half : f64lit 0x3fe0000000000000 = fin false (2 ^ 1073) := by decide +kernel
+
+theorem two_mul_half : 2 * ((2 ^ 1073 : ℕ) : ℤ) = U := by
+  rw [U_eq]; push_cast
+
+theorem eqz_iff {a : F64} (ha : a.is_finite = true) :
+    (a ==. f64lit 0x0000000000000000) = true ↔ a.toInt = 0 := by
+  rw [req_eq, f64lit_zero]; exact eq_zero_iff ha
+
+theorem modf_eqz_iff {a : F64} (ha : a.is_finite = true) :
+    ((F64.modf a).1 ==. f64lit 0x0000000000000000) = true ↔ U ∣ a.toInt := by
+  rw [eqz_iff (is_finite_modf_fst ha), toInt_modf_fst, fractV_eq_zero_iff]
+
+theorem abs_modf_eq_half_iff {a : F64} (ha : a.is_finite = true) :
+    (F64.abs (F64.modf a).1 ==. f64lit 0x3fe0000000000000) = true ↔ 2 * |fractV a.toInt| = U := by
+  rw [req_eq, f64lit_half, eq_iff_toInt (by rw [is_finite_abs]; exact is_finite_modf_fst ha) rfl,
+    toInt_abs, toInt_modf_fst, ← two_mul_half]
+  simp only [toInt]; omega
+
+theorem rge_zero_iff {a : F64} (ha : a.is_finite = true) :
+    (a >=. f64lit 0x0000000000000000) = true ↔ 0 ≤ a.toInt := by
+  rw [f64lit_zero]
+  have : (a >=. fin false 0) = F64.ge a (fin false 0) := by
+    show (match F64.partial_cmp a (fin false 0) with
+      | some .Greater => true | some .Equal => true | _ => false) = _
+    rw [ge_eq_isGe]
+    rcases F64.partial_cmp a (fin false 0) with _ | o
+    · rfl
+    · cases o <;> rfl
+  rw [this, ge_iff_toInt ha rfl]; rfl
+
+theorem bool_req (a b : Bool) : (a ==. b) = (a == b) := rfl
+
+end tests
+
+section f2s
+open F64
+
+/-! ## 8. Fast2Sum interface and overflow side conditions -/
+
+/-- The Fast2Sum fact used by the branch analysis (proved in `TFV.Lemmas.EFT`): for finite well-formed `a`, `b`
+with `|b| ≤ |a|` and no overflow of `a + b`, `fast_two_sum a b` is a valid pair with exact value `a + b`. -/
+def F2SSpec : Prop :=
+  ∀ a b : F64, a.is_finite = true → b.is_finite = true → a.WF → b.WF →
+    |b.toInt| ≤ |a.toInt| → rn53 (a.toInt + b.toInt).natAbs ≤ maxFin →
+    (arithmetic.fast_two_sum a b).V = a.toInt + b.toInt ∧ (arithmetic.fast_two_sum a b).Valid
+
+theorem two_abs_le {L P : ℤ} (h : 2 * |L| ≤ P) : -P ≤ 2 * L ∧ 2 * L ≤ P := by
+  rcases abs_cases L with ⟨e, _⟩ | ⟨e, _⟩ <;> rw [e] at h <;> omega
+
+theorem rn53_near_maxFin : rn53 (maxFin + 2 ^ 53 * F64.unit) = maxFin := by
+  apply rn53_eq_of_abs_lt rep_maxFin
+  have hlog : Nat.log2 (maxFin + 2 ^ 53 * F64.unit) - 52 = 2045 := by
+    apply log2_sub_eq
+    · rw [maxFin_eq, unit_eq]; norm_num
+    · rw [maxFin_eq, unit_eq]; norm_num
+  rw [hlog, unit_eq]
+  push_cast
+  rw [abs_of_nonpos (by norm_num)]
+  norm_num
+
+theorem no_ovf {T : ℤ} (h : |T| ≤ (maxFin : ℤ) + 2 ^ 53 * U) : rn53 T.natAbs ≤ maxFin := by
+  rw [← rn53_near_maxFin]
+  apply rn53_mono
+  have : ((T.natAbs : ℕ) : ℤ) ≤ ((maxFin + 2 ^ 53 * F64.unit : ℕ) : ℤ) := by
+    rw [Int.natCast_natAbs]; push_cast; exact h
+  exact_mod_cast this
+
+theorem two_U_le_maxFin : 2 * U ≤ (maxFin : ℤ) := by
+  rw [U_eq, maxFin_eq]; push_cast
+
+theorem abs_toInt_le {a : F64} (hw : a.WF) : |a.toInt| ≤ (maxFin : ℤ) := by
+  cases a with
+  | nan => simp [toInt]
+  | inf s => simp [toInt]
+  | fin s n =>
+    have : n ≤ maxFin := hw.2
+    cases s <;> simp only [toInt, abs_neg, Nat.abs_cast] <;> exact_mod_cast this
+
+theorem abs_lt_of_not_dvd {a : F64} (hw : a.WF) (h : ¬ U ∣ a.toInt) : |a.toInt| < 2 ^ 52 * U := by
+  cases a with
+  | nan => exact absurd (dvd_zero U) h
+  | inf s => exact absurd (dvd_zero U) h
+  | fin s n =>
+    have hn : ¬ F64.unit ∣ n := by
+      intro hd; apply h
+      have := U_dvd_cast hd
+      cases s
+      · exact this
+      · exact (dvd_neg).2 this
+    have hlt : n < 2 ^ 52 * F64.unit := by
+      by_contra hc
+      apply hn
+      rw [unit_eq] at hc ⊢
+      exact hw.1.dvd_of_le (by omega)
+    have : ((n : ℕ) : ℤ) < 2 ^ 52 * U := by unfold U; exact_mod_cast hlt
+    cases s <;> simp only [toInt, abs_neg, Nat.abs_cast] <;> exact this
+
+end f2s
+
+section branches
+open F64
+
+/-! ## 9. branch analysis -/
+
+/-- everything the branch analysis needs to know about a valid well-formed pair -/
+structure Facts (hi lo : F64) : Prop where
+  fh : hi.is_finite = true
+  fl : lo.is_finite = true
+  wh : hi.WF
+  wl : lo.WF
+  rn : hi.toInt = rnI (hi.toInt + lo.toInt)
+  ulp : ∃ e : ℕ, (2 : ℤ) ^ e ∣ hi.toInt ∧ 2 * |lo.toInt| ≤ 2 ^ e
+  pos : 0 < hi.toInt ↔ 0 < hi.toInt + lo.toInt
+  neg : hi.toInt < 0 ↔ hi.toInt + lo.toInt < 0
+  zero : hi.toInt = 0 → lo.toInt = 0
+
+theorem facts {x : TwoFloat} (hv : x.Valid) (hw : x.WF) : Facts x.hi x.lo where
+  fh := hv.1
+  fl := hv.2.1
+  wh := hw.1
+  wl := hw.2
+  rn := hv.hi_toInt
+  ulp := valid_ulp hv
+  pos := TwoFloat.Valid.hi_pos_iff roundFacts hv
+  neg := TwoFloat.Valid.hi_neg_iff roundFacts hv
+  zero := fun h => by
+    have := (TwoFloat.Valid.hi_zero_iff roundFacts hv).1 h
+    unfold TwoFloat.V at this; omega
+
+/-- side conditions of Fast2Sum in the branch "hi is an integer value, lo is not" -/
+theorem b2_bounds {hi lo : F64} (F : Facts hi lo) (hH : U ∣ hi.toInt) (hL : ¬ U ∣ lo.toInt) {c : ℤ}
+    (hc1 : floorV lo.toInt ≤ c) (hc2 : c ≤ ceilV lo.toInt) :
+    |c| ≤ |hi.toInt| ∧ rn53 (hi.toInt + c).natAbs ≤ maxFin := by
+  obtain ⟨e, hd, hl⟩ := F.ulp
+  have hHb := abs_toInt_le F.wh
+  have hLb := abs_lt_of_not_dvd F.wl hL
+  have hH0 : hi.toInt ≠ 0 := fun h => hL (by rw [F.zero h]; exact dvd_zero U)
+  generalize hi.toInt = H at *
+  generalize lo.toInt = L at *
+  have hU := U_pos
+  have hp : (0 : ℤ) < 2 ^ e := by positivity
+  have hP : (2 : ℤ) ^ e ≤ |H| := Int.le_of_dvd (abs_pos.2 hH0) ((dvd_abs _ _).2 hd)
+  obtain ⟨l1, l2⟩ := two_abs_le hl
+  have hf1 : -|H| ≤ floorV L := le_floorV ((dvd_neg).2 ((dvd_abs _ _).2 hH)) (by omega)
+  have hf2 : ceilV L ≤ |H| := ceilV_le ((dvd_abs _ _).2 hH) (by omega)
+  have hf3 := lt_floorV_add L
+  have hf4 := ceilV_lt_add L
+  obtain ⟨b1, b2⟩ := abs_lt.1 hLb
+  have hc : |c| ≤ |H| := abs_le.2 ⟨by omega, by omega⟩
+  refine ⟨hc, no_ovf ?_⟩
+  have hc' : |c| ≤ 2 ^ 53 * U := abs_le.2 ⟨by omega, by omega⟩
+  exact le_trans (abs_add_le H c) (by omega)
+
+theorem floor_exact_modF2S (h2 : F2SSpec) {x : TwoFloat} (hv : x.Valid) (hw : x.WF) :
+    (TwoFloat.floor x).V = floorV x.V ∧ (TwoFloat.floor x).Valid := by
+  obtain ⟨hi, lo⟩ := x
+  have F : Facts hi lo := facts hv hw
+  show (TwoFloat.floor ⟨hi, lo⟩).V = floorV (hi.toInt + lo.toInt) ∧ _
+  obtain ⟨e, hd, hl⟩ := F.ulp
+  unfold TwoFloat.floor
+  simp only []
+  by_cases c1 : U ∣ lo.toInt
+  · rw [if_pos ((modf_eqz_iff F.fl).2 c1)]
+    by_cases h0 : lo.toInt = 0
+    · have := pair_zero_ok (c := F64.floor hi) (l := lo) (by rw [is_finite_floor]; exact F.fh)
+        (WF_floor F.wh) F.fl h0
+      rw [toInt_floor] at this; rw [h0, add_zero]; exact this
+    · have hH := hi_int_of_lo_int hd hl c1 h0
+      constructor
+      · show (F64.floor hi).toInt + lo.toInt = _
+        rw [toInt_floor, floorV_of_dvd hH, floorV_of_dvd (dvd_add hH c1)]
+      · apply valid_of_rnI (by rw [is_finite_floor]; exact F.fh) F.fl (WF_floor F.wh)
+        rw [toInt_floor, floorV_of_dvd hH]; exact F.rn
+  · rw [if_neg (mt (modf_eqz_iff F.fl).1 c1)]
+    by_cases c2 : U ∣ hi.toInt
+    · rw [if_pos ((modf_eqz_iff F.fh).2 c2)]
+      have hb := b2_bounds F c2 c1 (c := floorV lo.toInt) le_rfl
+        (le_trans (floorV_le _) (le_ceilV _))
+      have := h2 hi (F64.floor lo) F.fh (by rw [is_finite_floor]; exact F.fl) F.wh (WF_floor F.wl)
+        (by rw [toInt_floor]; exact hb.1) (by rw [toInt_floor]; exact hb.2)
+      rw [toInt_floor] at this; rw [floorV_add_of_dvd c2]; exact this
+    · rw [if_neg (mt (modf_eqz_iff F.fh).1 c2)]
+      have := from_ok (c := F64.floor hi) (by rw [is_finite_floor]; exact F.fh) (WF_floor F.wh)
+      rw [toInt_floor] at this
+      obtain ⟨hp, g1, g2, -⟩ := frac_gaps hd c2
+      obtain ⟨l1, l2⟩ := two_abs_le hl
+      rw [floorV_eq_of (floorV_dvd hi.toInt) (by omega) (by omega)]
+      exact this
+
+
+theorem ceilV_add_of_dvd {h z : ℤ} (hd : U ∣ h) : ceilV (h + z) = h + ceilV z := by
+  rw [ceilV_nf, ceilV_nf z, floorV_add_of_dvd hd]
+  split_ifs <;> omega
+
+theorem ceil_exact_modF2S (h2 : F2SSpec) {x : TwoFloat} (hv : x.Valid) (hw : x.WF) :
+    (TwoFloat.ceil x).V = ceilV x.V ∧ (TwoFloat.ceil x).Valid := by
+  obtain ⟨hi, lo⟩ := x
+  have F : Facts hi lo := facts hv hw
+  show (TwoFloat.ceil ⟨hi, lo⟩).V = ceilV (hi.toInt + lo.toInt) ∧ _
+  obtain ⟨e, hd, hl⟩ := F.ulp
+  unfold TwoFloat.ceil
+  simp only []
+  by_cases c1 : U ∣ lo.toInt
+  · rw [if_pos ((modf_eqz_iff F.fl).2 c1)]
+    by_cases h0 : lo.toInt = 0
+    · have := pair_zero_ok (c := F64.ceil hi) (l := lo) (by rw [is_finite_ceil]; exact F.fh)
+        (WF_ceil F.wh) F.fl h0
+      rw [toInt_ceil] at this; rw [h0, add_zero]; exact this
+    · have hH := hi_int_of_lo_int hd hl c1 h0
+      constructor
+      · show (F64.ceil hi).toInt + lo.toInt = _
+        rw [toInt_ceil, ceilV_of_dvd hH, ceilV_of_dvd (dvd_add hH c1)]
+      · apply valid_of_rnI (by rw [is_finite_ceil]; exact F.fh) F.fl (WF_ceil F.wh)
+        rw [toInt_ceil, ceilV_of_dvd hH]; exact F.rn
+  · rw [if_neg (mt (modf_eqz_iff F.fl).1 c1)]
+    by_cases c2 : U ∣ hi.toInt
+    · rw [if_pos ((modf_eqz_iff F.fh).2 c2)]
+      have hb := b2_bounds F c2 c1 (c := ceilV lo.toInt)
+        (le_trans (floorV_le _) (le_ceilV _)) le_rfl
+      have := h2 hi (F64.ceil lo) F.fh (by rw [is_finite_ceil]; exact F.fl) F.wh (WF_ceil F.wl)
+        (by rw [toInt_ceil]; exact hb.1) (by rw [toInt_ceil]; exact hb.2)
+      rw [toInt_ceil] at this; rw [ceilV_add_of_dvd c2]; exact this
+    · rw [if_neg (mt (modf_eqz_iff F.fh).1 c2)]
+      have := from_ok (c := F64.ceil hi) (by rw [is_finite_ceil]; exact F.fh) (WF_ceil F.wh)
+      rw [toInt_ceil] at this
+      obtain ⟨hp, g1, g2, -⟩ := frac_gaps hd c2
+      obtain ⟨l1, l2⟩ := two_abs_le hl
+      have hf : floorV (hi.toInt + lo.toInt) = floorV hi.toInt :=
+        floorV_eq_of (floorV_dvd hi.toInt) (by omega) (by omega)
+      have : ceilV (hi.toInt + lo.toInt) = ceilV hi.toInt := by
+        rw [ceilV_nf, ceilV_nf hi.toInt, hf]; split_ifs <;> omega
+      rw [this]; assumption
+
+theorem sign_pos_nonneg {a : F64} (h : a.is_sign_positive = true) : 0 ≤ a.toInt :=
+  toInt_nonneg_of_sign_positive h
+
+theorem sign_neg_nonpos {a : F64} (h : ¬ a.is_sign_positive = true) : a.toInt ≤ 0 := by
+  apply toInt_nonpos_of_sign_negative
+  rw [is_sign_negative_eq_not_pos]; simpa using h
+
+theorem trunc_exact_modF2S (h2 : F2SSpec) {x : TwoFloat} (hv : x.Valid) (hw : x.WF) :
+    (TwoFloat.trunc x).V = truncV x.V ∧ (TwoFloat.trunc x).Valid := by
+  have F : Facts x.hi x.lo := facts hv hw
+  have hV : x.V = x.hi.toInt + x.lo.toInt := rfl
+  unfold TwoFloat.trunc TwoFloat.is_sign_positive
+  by_cases hs : x.hi.is_sign_positive = true
+  · rw [if_pos hs]
+    have h0 := sign_pos_nonneg hs
+    have : 0 ≤ x.V := by
+      by_contra hc; have := F.neg.2 (by omega); omega
+    rw [truncV_of_nonneg this]; exact floor_exact_modF2S h2 hv hw
+  · rw [if_neg hs]
+    have h0 := sign_neg_nonpos hs
+    have : x.V ≤ 0 := by
+      by_contra hc; have := F.pos.2 (by omega); omega
+    rw [truncV_of_nonpos this]; exact ceil_exact_modF2S h2 hv hw
+
+end branches
+
 end C08
